@@ -32,7 +32,11 @@
     are the first `k` vertices and the first `m` triangles.  `Full.Out` keeps vertices and triangles
     in two lists (their interleaving is not modelled), so `m` — the number of `add_triangle` calls
     before the refused vertex — is an INPUT of the call (the harness measures it on a fresh real
-    tessellator).
+    tessellator).  Whether the builder refuses that vertex once, twice or from then on makes no
+    difference: no further `add_stroke_vertex` is attempted.
+  * `CallF.ctorPanic = some j`: the caller's vertex constructor panics at the accepted vertex `j`;
+    the panic unwinds out of the entry point (output `panic`), the object is left as the unwinding
+    left it and is used again.
 
   Output of a call (`OutF`): the outcome, every emitted vertex (all accessors through `VData.read`),
   the attributes every vertex constructor reads through the object's own buffer
@@ -64,6 +68,9 @@ inductive BodyF (α : Type) where
 structure CallF (α : Type) where
   body : BodyF α
   refuse : Option (Nat × Nat)
+  /-- the caller's `StrokeVertexConstructor` panics at the accepted vertex with this index (0-based):
+  the call unwinds out of the entry point -/
+  ctorPanic : Option Nat
 
 inductive OutcomeF where
   | ok | err | panic | dropped
@@ -75,8 +82,11 @@ structure OutF (α : Type) where
   verts : List (VData α)
   attrs : List (List α)
   tris : List Tri
+  /-- how many `add_stroke_vertex` calls the geometry builder refused: the error is latched at the
+  first one, no further vertex is offered -/
+  refusals : Nat
 
-def OutF.panic : OutF α := ⟨.panic, [], [], []⟩
+def OutF.panic : OutF α := ⟨.panic, [], [], [], 0⟩
 
 def BodyF.entry : BodyF α → Reset.StrokeEntry
   | .fw .. => .events
@@ -121,6 +131,13 @@ def cutTris (refuse : Option (Nat × Nat)) (nverts : Nat) (ts : List Tri) : List
   | none => ts
   | some (_, m) => if wasRefused refuse nverts then ts.take m else ts
 
+/-- the constructor's panic happens: the vertex it is set for is reached (it is not if a refusal
+came first: nothing is emitted after a refused vertex) -/
+def ctorPanics (ctorPanic : Option Nat) (naccepted : Nat) : Bool :=
+  match ctorPanic with
+  | none => false
+  | some j => j < naccepted
+
 section
 variable [Transc α] [Asin α] [FlatConst α]
 
@@ -144,8 +161,12 @@ def finishF (c : CallF α) (store : Nat → List α) (buf : List α) : Option (O
     match a.1 with
     | none => (OutF.panic, a.2.buf)
     | some l =>
+      -- a panicking vertex constructor: the call unwinds; what it leaves in the buffer is not claimed
+      -- (any buffer does: the next call's prologue forgets it)
+      if ctorPanics c.ctorPanic vs.length then (OutF.panic, a.2.buf) else
       (⟨if c.body.isDropped then .dropped else if wasRefused c.refuse out.verts.length then .err else .ok,
-        vs, l, cutTris c.refuse out.verts.length out.tris⟩, a.2.buf)
+        vs, l, cutTris c.refuse out.verts.length out.tris,
+        if wasRefused c.refuse out.verts.length then 1 else 0⟩, a.2.buf)
 
 /-- **one call on the object `t`**: the object afterwards and the complete output -/
 def strokeCallF (ix : Ix α) (t : Reset.StrokeT α) (c : CallF α) : Reset.StrokeT α × OutF α :=
